@@ -14,20 +14,20 @@ variable {F : Type}
 /-- One node: the loop body lets the node pass exactly when the node satisfies its constraints. -/
 theorem C16_node (P : Prim F) (n : Node F) (hs : n.Sane P) :
     validateNode P n = true ↔ holds P n := by
-  obtain ⟨hsel, hstr, hreg, hnone⟩ := hs
+  obtain ⟨hsel, hstr, hreg⟩ := hs
   obtain ⟨regs, hregs⟩ := mapM_isSome (register P n) n.options hreg
   unfold validateNode holds
   rw [hregs]
   simp only
-  cases hd : castDims n.dims n.shape with
+  cases hd : dimsOK n.dims n.shape with
   | false => simp
   | true =>
     simp only [Bool.not_true, Bool.false_eq_true, if_false, true_and]
     cases hv : n.value with
     | none =>
-      obtain ⟨ho, hc, hf⟩ := hnone hv
-      have hre : regs = [] := ((mapM_some_any (register P n) (fun _ => true) _ _ hregs).2).mpr ho
-      simp [hre, hc, hf]
+      have hre : regs = [] ↔ n.options = [] := (mapM_some_any (register P n) (fun _ => true) _ _ hregs).2
+      cases hdecl : n.declared <;> cases hc : n.condition <;> cases hf : n.format <;>
+        simp [hre, List.isEmpty_iff]
     | some v =>
       have hany := fun p => (mapM_some_any (register P n) p _ _ hregs)
       have hopt : validateOptions P regs v = true ↔ (n.options = [] ∨ ∃ o ∈ n.options, optHolds P n v o) := by
@@ -70,15 +70,11 @@ theorem C16_node (P : Prim F) (n : Node F) (hs : n.Sane P) :
           | some b => cases b <;> simp
       constructor
       · intro h
-        refine ⟨fun _ => by simp, ?_⟩
-        intro v' hv'
-        cases hv'
         by_cases hx : (n.selectable && !validateOptions P regs v) = true
         · simp [hx] at h
         · simp only [hx, Bool.false_eq_true, if_false, Bool.and_eq_true] at h
           exact ⟨hsel'.mp (by simpa using hx), hcond.mp h.1, hfmt.mp h.2⟩
-      · rintro ⟨_, hall⟩
-        obtain ⟨h1, h2, h3⟩ := hall v rfl
+      · rintro ⟨h1, h2, h3⟩
         have hx : (n.selectable && !validateOptions P regs v) = false := hsel'.mpr h1
         simp only [hx, Bool.false_eq_true, if_false, Bool.and_eq_true]
         exact ⟨hcond.mpr h2, hfmt.mpr h3⟩
@@ -106,10 +102,15 @@ theorem C16_complete (P : Prim F) (env : List (Node F)) (hs : ∀ n ∈ env, n.S
     exact ⟨(C16_node P a (hs a (by simp))).mpr (h a (by simp)),
       ih (fun m hm => hs m (by simp [hm])) (fun m hm => h m (by simp [hm]))⟩
 
-/-- The dimension test of `cast_value` accepts exactly the shapes with every declared dimension
-    inside its bounds (an open bound is no bound). -/
+/-- The dimension test of `cast_value`: a node without declared dimensions takes exactly the
+    scalar values; a node with declared dimensions exactly the values that have every declared axis
+    with its extent inside the bounds (an open bound is no bound). -/
 theorem C16_dims (dims : List (Option Nat × Option Nat)) (shape : List Nat) :
-    castDims dims shape = true ↔ dimsWithin dims shape := castDims_iff dims shape
+    dimsOK dims shape = true ↔ (dims = [] ∧ shape = []) ∨ (dims ≠ [] ∧ dimsWithin dims shape) := by
+  unfold dimsOK
+  cases dims with
+  | nil => simp
+  | cons d ds => simp [castDims_iff]
 
 /-- Options are compared after conversion to the node's unit: an option written in another unit of
     the same dimension is met exactly when the converted value is tolerantly equal. -/
@@ -127,7 +128,7 @@ def exP : Prim Int := ⟨fun s d v => if s = d then some v else if s = some "m" 
 def exN : Node Int := ⟨false, some (.num 200 (some "cm")), some "cm", true, [.num 3 (some "cm"), .num 2 (some "m")],
   some (some true), false, none, [], []⟩
 example : exN.Sane exP := by
-  refine ⟨by simp [exN], by simp [exN], ?_, by simp [exN]⟩
+  refine ⟨by simp [exN], by simp [exN], ?_⟩
   intro o ho
   simp [exN] at ho
   rcases ho with rfl | rfl <;> simp [register, exP, exN]
